@@ -185,6 +185,10 @@ class SymWorld(S.World):
     def ld_rule(self, matrix, value, lemma):
         MX.add_logdet_rule(self, matrix, value, lemma)
 
+    def kernel_option(self, name, value=True):
+        """obligation-level kernel configuration (every setting is a sound rewriting strategy, none adds an assumption)"""
+        setattr(self.ctx, name, value)
+
     def is_contract_inverse(self, X, Y):
         """True iff Y is literally the atom Inv[X] (or X the atom Inv[Y]) handed out by the invert_matrix contract for
         exactly this matrix: then X*Y = I holds by the callee's contract and needs no rewriting"""
@@ -595,6 +599,9 @@ class NumWorld:
 
     def ld_congruence(self, X, Y, lemma=""):
         return self.equal("hint/logdet-congruence", X, Y)
+
+    def kernel_option(self, name, value=True):
+        pass
 
     def have_inverse(self, X, E, lemma):
         np = self.np
